@@ -1350,10 +1350,12 @@ func (c *Client) Status() (*ClientStatus, error) {
 // in the client. It returns two slices of errors containing the send
 // and recv errors
 func (c *Client) hasErrors() ([]error, []error) {
-	c.readErrMu.RLock()
-	defer c.readErrMu.RUnlock()
+	// Take the locks in the same order as Reset and Status (send before read), since
+	// otherwise Reset can deadlock against a concurrent AwaitConverged.
 	c.sendErrMu.RLock()
 	defer c.sendErrMu.RUnlock()
+	c.readErrMu.RLock()
+	defer c.readErrMu.RUnlock()
 	if len(c.readErr) != 0 || len(c.sendErr) != 0 {
 		return c.sendErr, c.readErr
 	}
